@@ -18,7 +18,12 @@ Inductive case :=
 (* DoTimes / StartGroup / loops of Launch / Operation.Add with ANY count n (negative, zero, positive) on a group on
    which k launched workers are still running (gated): did the call panic, the counter right after it, whether a Wait
    with a live context returned while all workers were still gated, the counter after everything was released *)
-| CDoTimes (id : Z) (k : Z) (n : Z) (obs_panic : bool) (obs_after : Z) (obs_wait_early : bool) (obs_final : Z).
+| CDoTimes (id : Z) (k : Z) (n : Z) (obs_panic : bool) (obs_after : Z) (obs_wait_early : bool) (obs_final : Z)
+(* n goroutines launched with a launch context that is live / has ended, whose bodies end by return / recovered panic /
+   runtime.Goexit: how many bodies ran, whether a Wait with a LIVE 10 s context returned, the counter afterwards *)
+| CLaunchX (id : Z) (n : Z) (ctx_live : bool) (e : exit_kind) (obs_ran : Z) (obs_wait_returned : bool) (obs_final : Z)
+(* `rounds` rounds of: Add(1); one goroutine calls Wait (live 10 s context) at the same moment as another calls Done *)
+| CEdge (id : Z) (rounds : Z) (obs_released : Z) (obs_final : Z).
 
 Definition res_eqb (a b : wg_res) : bool :=
   match a, b with
@@ -36,7 +41,7 @@ Fixpoint list_eqb {A} (eqb : A -> A -> bool) (a b : list A) : bool :=
   end.
 
 Definition case_id (c : case) : Z :=
-  match c with CSeq id _ _ _ => id | CRounds id _ => id | CCancel id _ _ _ _ _ => id | CLaunch id _ _ _ _ => id | CDoTimes id _ _ _ _ _ _ => id end.
+  match c with CSeq id _ _ _ => id | CRounds id _ => id | CCancel id _ _ _ _ _ => id | CLaunch id _ _ _ _ => id | CDoTimes id _ _ _ _ _ _ => id | CLaunchX id _ _ _ _ _ _ => id | CEdge id _ _ _ => id end.
 
 Definition check_case (c : case) : bool :=
   match c with
@@ -66,6 +71,14 @@ Definition check_case (c : case) : bool :=
       && Z.eqb after c2
       && Bool.eqb early (match snd (wg_step c2 WWait) with RReturned => true | _ => false end)
       && Z.eqb fin 0
+  | CLaunchX _ n live e ran returned fin =>
+      let '(c1, r) := launch_all_roundtrip (Z.to_nat n) live e 0 in
+      Z.eqb ran r && Z.eqb fin c1
+      && Bool.eqb returned (match snd (wg_step c1 WWait) with RReturned => true | _ => false end)
+  | CEdge _ rounds released fin =>
+      (* every round: Add 1 then Done, in either order with the Wait: the counter ends at zero and the waiter is released *)
+      let '(c1, _) := wg_run 0 [WAdd 1; WDone] in
+      Z.eqb fin c1 && (if c1 =? 0 then Z.eqb released rounds else true)
   end.
 
 Definition mismatches (cs : list case) : list Z :=
